@@ -92,13 +92,12 @@ def samples():
               np.array([[0., -1.5, 0, 0], [0, 0, 0, 0], [0, 0.7, 0, 2.], [0, 0, 0, 0]])):
         p = len(G)
         out.append({"function": F + "dag_to_cpdag", "inputs": {"G": C.jsonable(G)},
-                    "library": U.dag_to_cpdag(G).tolist(), "oracle": C.mat(p, O.essential(O.mec_of(p, O.encode(G))))})
+                    "library": C.lib(U.dag_to_cpdag, G, render=lambda r: r.tolist()), "oracle": C.mat(p, O.essential(O.mec_of(p, O.encode(G))))})
     P = np.array([[0, 1, 0, 0], [1, 0, 1, 0], [0, 0, 0, 0], [0, 0, 1, 0]])
-    out.append({"function": F + "pdag_to_cpdag", "inputs": {"pdag": C.jsonable(P)}, "library": U.pdag_to_cpdag(P).tolist(),
+    out.append({"function": F + "pdag_to_cpdag", "inputs": {"pdag": C.jsonable(P)}, "library": C.lib(U.pdag_to_cpdag, P, render=lambda r: r.tolist()),
                 "oracle": C.mat(4, O.essential(O.mec_of(4, O.extensions(4, O.encode(P))[0])))})
     P = np.array([[0, 1, 0, 1], [1, 0, 1, 0], [0, 1, 0, 1], [1, 0, 1, 0]])
-    st, r = C.call(U.pdag_to_cpdag, P)
-    out.append({"function": F + "pdag_to_cpdag", "inputs": {"pdag": C.jsonable(P)}, "library": type(r).__name__,
+    out.append({"function": F + "pdag_to_cpdag", "inputs": {"pdag": C.jsonable(P)}, "library": C.lib(U.pdag_to_cpdag, P, render=lambda r: r.tolist()),
                 "oracle": "ValueError (no consistent extension: %d)" % len(O.extensions(4, O.encode(P)))})
     return out
 
@@ -123,7 +122,7 @@ def run(tier, seed):
             "pdag_to_cpdag: every 0/1 zero-diagonal matrix with acyclic directed part on p<=%d: essential graph of the class of its "
             "consistent extensions, ValueError iff it has none. non-trivial = graph with >=1 edge; distinct = exact integer key "
             "(kind, p, matrix bits) in a set" % (pmax, pmax))
-    return C.report(tally, rule, exhaustive=True, bound="p<=%d" % pmax, samples=samples())
+    return C.report(tally, rule, exhaustive=True, bound="p<=%d" % pmax, samples=C.safe_samples(samples))
 
 
 if __name__ == "__main__":
